@@ -286,6 +286,29 @@ Proof.
   vm_compute. split; reflexivity.
 Qed.
 
+(* D6 (round 3): after a failed delete the entry stayed marked as being deleted and a
+   later update of the same name did not revive it: a double claim went unreported *)
+Lemma d6_failed_delete_refuted : exists evs,
+  let objs := [mkObj 1 1 []; mkObj 2 3 [MHyper 1]; mkObj 3 2 [MHyper 1]]%positive in
+  bad_membership objs = true /\
+  s_ready (snd (run_round2 (mkEnv [] []) evs)) = true /\
+  s_ready (snd (run (mkEnv [] []) evs)) = false.
+Proof.
+  exists [EUpd (mkObj 1 2 [MHyper 3; MHyper 1]); EDel 3; EUpd (mkObj 1 1 []);
+          EUpd (mkObj 3 2 [MHyper 1]); EUpd (mkObj 2 3 [MHyper 1])]%positive.
+  vm_compute. repeat split; reflexivity.
+Qed.
+
+(* D9 (round 3): deleting a HyperNode that had failed to adopt h2 detached h2 from its
+   real parent h3 *)
+Lemma d9_foreign_release_refuted : exists evs,
+  (exists i, aget 2%positive (s_hn (snd (run_round2 (mkEnv [] []) evs))) = Some i /\ i_parent i = None) /\
+  (exists i, aget 2%positive (s_hn (snd (run (mkEnv [] []) evs))) = Some i /\ i_parent i = Some 3%positive).
+Proof.
+  exists [EUpd (mkObj 3 2 [MHyper 2]); EUpd (mkObj 5 2 [MHyper 2]); EUpd (mkObj 2 1 []); EDel 5]%positive.
+  vm_compute. split; eexists; split; reflexivity.
+Qed.
+
 (* still open (known findings D5, D7): on the repaired code a double claim can stay
    unreported, so "bad membership => not ready" is not a theorem of the model *)
 Lemma bad_membership_not_ready_refuted : exists evs,
@@ -303,11 +326,11 @@ Lemma rebuild_all_err e : forall l a,
   snd (fold_left (fun (acc : st * bool) k => let '(s0, e0) := acc in
          if (e0 : bool) then acc else
          let '(s1, e1) := rebuild_cache e s0 k in
-         if (e1 : bool) then (mark_failed true s1 k, true) else (unfail true s1 k, false)) l a) = true ->
+         if (e1 : bool) then (mark_failed 2 s1 k, true) else (unfail 2 s1 k, false)) l a) = true ->
   s_ready (fst (fold_left (fun (acc : st * bool) k => let '(s0, e0) := acc in
          if (e0 : bool) then acc else
          let '(s1, e1) := rebuild_cache e s0 k in
-         if (e1 : bool) then (mark_failed true s1 k, true) else (unfail true s1 k, false)) l a)) = false.
+         if (e1 : bool) then (mark_failed 2 s1 k, true) else (unfail 2 s1 k, false)) l a)) = false.
 Proof.
   induction l as [|k l IH]; intros a Ha; simpl; [exact Ha|].
   apply IH. destruct a as [s2 e2]. destruct e2; [exact Ha|].
@@ -317,9 +340,9 @@ Qed.
 Lemma freed_loop_err e nm : forall l a,
   (snd a = true -> s_ready (fst a) = false) ->
   snd (fold_left (fun (acc : st * bool) fr => let '(s0, e0) := acc in
-         if (e0 : bool) then acc else rebuild_all true e s0 (claimers (s_hn s0) fr nm)) l a) = true ->
+         if (e0 : bool) then acc else rebuild_all 2 e s0 (claimers (s_hn s0) fr nm)) l a) = true ->
   s_ready (fst (fold_left (fun (acc : st * bool) fr => let '(s0, e0) := acc in
-         if (e0 : bool) then acc else rebuild_all true e s0 (claimers (s_hn s0) fr nm)) l a)) = false.
+         if (e0 : bool) then acc else rebuild_all 2 e s0 (claimers (s_hn s0) fr nm)) l a)) = false.
 Proof.
   induction l as [|x l IH]; intros a Ha; simpl; [exact Ha|].
   apply IH. destruct a as [s0 e0]. destruct e0; [exact Ha|].
@@ -335,7 +358,7 @@ Proof.
   match type of H with (let '(_, _) := ?c in _) = _ => destruct c as [s4 err] end.
   destruct err.
   - inversion H; subst. reflexivity.
-  - pose proof (freed_loop_err e (o_name o) freed (unfail true s4 (o_name o), false)
+  - pose proof (freed_loop_err e (o_name o) freed (unfail 2 s4 (o_name o), false)
                   ltac:(simpl; discriminate)) as G.
     match type of H with (let '(_, _) := ?c in _) = _ => set (r := c) in H end.
     change (snd r = true -> s_ready (fst r) = false) in G.
